@@ -105,7 +105,8 @@ class PiecewisePolynomialKernel(Kernel):
         x1_ = x1.div(self.lengthscale)
         x2_ = x2.div(self.lengthscale)
         if last_dim_is_batch is True:
-            D = x1.shape[1]
+            # every input dimension is evaluated as a one-dimensional kernel of its own
+            D = 1
         else:
             D = x1.shape[-1]
         j = math.floor(D / 2.0) + self.q + 1
